@@ -567,7 +567,8 @@ Var& Var::extend(const Var& v)
 	
 	if (_type == OBJ)
 	{
-		foreach2 (String& k, Var & x, *v._o)
+		VDic<Var> src = *v._o; // v may be a property of *this: hold its dictionary while inserting into ours
+		foreach2 (String& k, Var & x, src)
 		{
 			if (x.ok())
 				(*_o)[k] = x;
